@@ -283,6 +283,8 @@ pub fn run(case: &Value) -> Vec<Value> {
             "forced_cancel" => forced_cancel(),
             "forced_stop" => forced_stop(),
             "co_join" => co_join(op),
+            "repeat_cancel" => repeat_cancel(),
+            "loop_stop" => loop_stop(usize::try_from(as_u64(&op["tasks"])).expect("tasks")),
             "race_submit" => race_submit(usize::try_from(as_u64(&op["threads"])).expect("threads"),
                                          usize::try_from(as_u64(&op["per"])).expect("per")),
             "running" => json!({"num": pools[p.expect("p")].get_running_size()}),
@@ -607,4 +609,114 @@ fn co_join(op: &Value) -> Value {
     let r = slot.lock().expect("slot").clone();
     let ran_during = ran_at_return.lock().expect("rar").clone();
     json!({"co_join": {"wait": r, "ran": ran_during}})
+}
+
+/// C13: a task cancelled while suspended is cancelled AGAIN later (a legal no-op) while an unrelated
+/// task is running on the same thread: the bystander must finish. A dedicated scheduler thread runs the
+/// pool; this thread issues the cancels.
+fn repeat_cancel() -> Value {
+    use std::sync::atomic::{AtomicBool, AtomicU64, Ordering};
+    use std::sync::Arc;
+    verif::set_virtual_clock(None);
+    let a_parked = Arc::new(AtomicBool::new(false));
+    let b_running = Arc::new(AtomicBool::new(false));
+    let release_b = Arc::new(AtomicBool::new(false));
+    let b_done = Arc::new(AtomicBool::new(false));
+    let a_done = Arc::new(AtomicBool::new(false));
+    let submit_b = Arc::new(AtomicBool::new(false));
+    let a_id = Arc::new(AtomicU64::new(0));
+    let stop = Arc::new(AtomicBool::new(false));
+    let (ap, br, rb, bd, ad, sb, aid, st) = (a_parked.clone(), b_running.clone(), release_b.clone(), b_done.clone(),
+        a_done.clone(), submit_b.clone(), a_id.clone(), stop.clone());
+    let sched = std::thread::spawn(move || {
+        let pool: &'static mut CoroutinePool<'static> =
+            Box::leak(Box::new(CoroutinePool::new("ocvrepeat".to_string(), 128 * 1024, 0, 2, 0)));
+        let (ap2, ad2) = (ap.clone(), ad.clone());
+        let ida = pool.submit_task(Some("repeat-A".to_string()), move |_| {
+            ap2.store(true, Ordering::Release);
+            if let Some(s) = SchedulableSuspender::current() {
+                s.delay(Duration::from_millis(40));
+            }
+            ad2.store(true, Ordering::Release);
+            Some(1)
+        }, None, None).expect("submit A");
+        aid.store(ida, Ordering::Release);
+        let mut b_submitted = false;
+        let t0 = std::time::Instant::now();
+        while !st.load(Ordering::Acquire) && t0.elapsed() < Duration::from_secs(8) {
+            if sb.load(Ordering::Acquire) && !b_submitted {
+                b_submitted = true;
+                let (br2, rb2, bd2) = (br.clone(), rb.clone(), bd.clone());
+                let _ = pool.submit_task(Some("repeat-B".to_string()), move |_| {
+                    br2.store(true, Ordering::Release);
+                    let t0 = std::time::Instant::now();
+                    while !rb2.load(Ordering::Acquire) && t0.elapsed() < Duration::from_secs(4) {
+                        std::hint::spin_loop();
+                    }
+                    bd2.store(true, Ordering::Release);
+                    Some(2)
+                }, None, None);
+            }
+            let _ = pool.try_timed_schedule_task(Duration::from_millis(5));
+        }
+    });
+    let wait = |f: &Arc<AtomicBool>, ms: u64| {
+        let t0 = std::time::Instant::now();
+        while !f.load(Ordering::Acquire) && t0.elapsed() < Duration::from_millis(ms) {
+            std::thread::sleep(Duration::from_millis(2));
+        }
+        f.load(Ordering::Acquire)
+    };
+    let parked = wait(&a_parked, 3000);
+    std::thread::sleep(Duration::from_millis(30));
+    CoroutinePool::try_cancel_task(a_id.load(Ordering::Acquire));      // A is suspended: cancel-set path
+    std::thread::sleep(Duration::from_millis(250));                      // the scheduler drops A's coroutine
+    submit_b.store(true, Ordering::Release);
+    let started = wait(&b_running, 3000);
+    CoroutinePool::try_cancel_task(a_id.load(Ordering::Acquire));      // again: must be a no-op
+    std::thread::sleep(Duration::from_millis(100));
+    release_b.store(true, Ordering::Release);
+    let finished = wait(&b_done, 2000);
+    stop.store(true, Ordering::Release);
+    let _ = sched.join();
+    json!({"repeat_cancel": {"target_parked": parked, "bystander_started": started, "bystander_finished": finished,
+                             "target_finished": a_done.load(Ordering::Acquire)}})
+}
+
+/// C12 through the event loop: tasks are accepted and `EventLoops::stop` is called at once: stop may
+/// report success only when every accepted task has run.
+fn loop_stop(ntasks: usize) -> Value {
+    use open_coroutine_core::config::Config;
+    use open_coroutine_core::net::EventLoops;
+    use std::sync::atomic::{AtomicUsize, Ordering};
+    use std::sync::Arc;
+    verif::set_virtual_clock(None);
+    let mut cfg = Config::single();
+    let _ = cfg.set_event_loop_size(1);
+    EventLoops::init(&cfg);
+    // let the loop thread settle into its wait
+    std::thread::sleep(Duration::from_millis(60));
+    let ran = Arc::new(AtomicUsize::new(0));
+    let mut accepted = 0usize;
+    let mut handles = Vec::new();
+    for _ in 0..ntasks {
+        let ran = ran.clone();
+        let h = EventLoops::submit_task(None, move |_| {
+            let _ = ran.fetch_add(1, Ordering::SeqCst);
+            Some(1)
+        }, None, None);
+        if h.id().is_ok() {
+            accepted += 1;
+        }
+        handles.push(h);
+    }
+    let t0 = std::time::Instant::now();
+    let r = EventLoops::stop(Duration::from_secs(5));
+    let el = t0.elapsed();
+    let after = EventLoops::submit_task(None, |_| Some(1), None, None).id().is_ok();
+    for h in handles {
+        std::mem::forget(h);
+    }
+    json!({"loop_stop": {"accepted": accepted, "stop_ok": r.is_ok(), "ran_at_stop_return": ran.load(Ordering::SeqCst),
+                         "stop_ms": u64::try_from(el.as_millis()).unwrap_or(u64::MAX), "accepted_after_stop": after}})
 }
